@@ -450,6 +450,8 @@ impl RefStore {
 struct Case<'a> {
     /// uncles embedded in main-chain blocks
     included: HashSet<Byte32>,
+    /// the same, with their numbers (embedded uncles a later uncle may descend from)
+    included_list: Vec<(Byte32, u64)>,
     /// blocks the builder attached in place to one of its stores (built with Tweak::None, cellbase only)
     inplace: HashSet<Byte32>,
     t_submit: std::time::Duration,
@@ -790,6 +792,7 @@ fn run_case(out: &mut Out, seed: u64, base: &Path, cyc: u64, steps: usize) {
     let mut c = Case {
         inplace: HashSet::new(),
         included: HashSet::new(),
+        included_list: vec![],
         t_submit: Default::default(),
         t_describe: Default::default(),
         t_process: Default::default(),
@@ -1089,6 +1092,7 @@ fn step(c: &mut Case) {
     for u in &v.uncles().into_iter().collect::<Vec<_>>() {
         c.pool.retain(|p| p.hash() != u.hash());
         c.included.insert(u.hash());
+        c.included_list.push((u.hash(), u.number()));
         // proposals carried by an included uncle are proposed at this height
         for p in u.data().proposals().into_iter() {
             for e in c.pending.iter_mut() {
@@ -1117,6 +1121,10 @@ fn step(c: &mut Case) {
     // side-branch variant
     if c.rng.chance(1, 5) && h >= 3 {
         side_branch(c);
+    }
+    // leave the branch for a heavier one and come back to it (its lower blocks were verified earlier)
+    if c.rng.chance(1, 6) && h >= 4 {
+        switch_back(c);
     }
     // an attached block submitted again, with the same header and a different body
     if c.rng.chance(1, 6) {
@@ -1175,6 +1183,31 @@ fn boundary_valid(c: &mut Case, v: BlockView, ph: &BlockView, kind: u64, median:
             c.submit(&at, now, Intent::Valid, "ext-96");
             at
         }
+        5 | 6 if v.uncles().hashes().is_empty() && v.number() >= 5 => {
+            // valid side of the uncle-descent number rule: an uncle on a main-chain parent, an uncle
+            // descending from it inside the same list, or one descending from an embedded uncle —
+            // all with number = parent.number + 1
+            let h = v.number();
+            let main = c.builder.path_to(&parent);
+            let k = c.rng.range(1, h - 4);
+            let salt = c.next_salt();
+            let u1 = craft_uncle(&v, &main[(k - 1) as usize], k, salt);
+            let emb: Vec<(Byte32, u64)> = c.included_list.iter().filter(|(_, n)| n + 1 < h).cloned().collect();
+            let u2 = if kind == 6 && !emb.is_empty() {
+                let (pu, nu) = c.rng.pick(&emb).clone();
+                c.out.count("valid:uncle-on-embedded-uncle-number+1");
+                craft_uncle(&v, &pu, nu + 1, salt + 1)
+            } else {
+                c.out.count("valid:uncle-on-listed-uncle-number+1");
+                craft_uncle(&v, &u1.hash(), k + 1, salt + 1)
+            };
+            c.rules_hit.insert("uncle-descent-number:Valid".into());
+            let at = v.as_advanced_builder().set_uncles(vec![u1, u2]).build();
+            c.builder.blocks.insert(at.hash(), at.clone());
+            c.describe_all(&parent, &[&at]);
+            c.submit(&at, now, Intent::Valid, "uncle-descent-valid");
+            at
+        }
         4 => {
             // the same block with a sixth molecule table field after the extension: not covered by
             // any hash and dropped by the store round trip, so it is the same valid block
@@ -1219,7 +1252,7 @@ fn make_mutant(
         b[9] = 0xee;
         ProposalShortId::new(b)
     };
-    let kind = c.rng.below(44);
+    let kind = c.rng.below(50);
     let r: (BlockView, &'static str) = match kind {
         // ---- header stage
         0 => (v.as_advanced_builder().number(h + 1).build(), "number+1"),
@@ -1419,6 +1452,51 @@ fn make_mutant(
             }
         }
         42 => (edit_raw(v, |r| r.extra_hash(h256!("0x3").pack())), "extra-hash"),
+        43..=49 => {
+            // uncle descent with a broken number continuity (uncle headers never pass HeaderVerifier:
+            // `descendant` / the `included` map are the only places `parent.number + 1 == number` is
+            // checked). The uncle is inside the epoch and below the block's number.
+            let main = c.builder.path_to(&ph.hash());
+            let mk = |us: Vec<UncleBlockView>| v.as_advanced_builder().set_uncles(us).build();
+            match kind {
+                43 | 44 | 49 => {
+                    // parent = a main-chain block
+                    if h < 4 {
+                        return None;
+                    }
+                    let k = c.rng.range(1, h - 3); // parent height k-1 .. ; honest number would be k
+                    let parent = main[(k - 1) as usize].clone();
+                    let wrong = if c.rng.chance(1, 2) { k + 1 } else if k >= 2 { k - 1 } else { k + 1 };
+                    let u = craft_uncle(v, &parent, wrong, salt);
+                    (mk(vec![u]), if wrong > k { "uncle-main-parent-number+1" } else { "uncle-main-parent-number-1" })
+                }
+                45 | 46 => {
+                    // parent = an uncle embedded in an ancestor (store.get_uncle_header)
+                    let cands: Vec<(Byte32, u64)> = c.included_list.iter().filter(|(_, n)| *n >= 1).cloned().collect();
+                    if cands.is_empty() {
+                        return None;
+                    }
+                    let (ph_u, n_u) = c.rng.pick(&cands).clone();
+                    let wrong = if n_u + 2 < h && c.rng.chance(1, 2) { n_u + 2 } else { n_u };
+                    if wrong == 0 || wrong >= h {
+                        return None;
+                    }
+                    let u = craft_uncle(v, &ph_u, wrong, salt);
+                    (mk(vec![u]), if wrong > n_u { "uncle-embedded-parent-number+1" } else { "uncle-embedded-parent-number-1" })
+                }
+                _ => {
+                    // parent = an earlier uncle of the same list
+                    if h < 5 {
+                        return None;
+                    }
+                    let k = c.rng.range(1, h - 4);
+                    let u1 = craft_uncle(v, &main[(k - 1) as usize], k, salt);
+                    let wrong = if c.rng.chance(1, 2) { k + 2 } else { k };
+                    let u2 = craft_uncle(v, &u1.hash(), wrong, salt + 1);
+                    (mk(vec![u1, u2]), if wrong > k { "uncle-list-parent-number+1" } else { "uncle-list-parent-number-1" })
+                }
+            }
+        }
         _ => return None,
     };
     if r.0.hash() == v.hash() {
@@ -1481,10 +1559,68 @@ fn with_extra_field(v: &BlockView, extra: &[u8]) -> Option<BlockView> {
     Some(blk.into_view_without_reset_header())
 }
 
+/// an uncle made from `v`'s header (same epoch, same target) with a chosen parent and number
+fn craft_uncle(v: &BlockView, parent: &Byte32, number: u64, salt: u64) -> UncleBlockView {
+    v.as_advanced_builder()
+        .parent_hash(parent.clone())
+        .number(number)
+        .timestamp(v.timestamp() + 1000 + salt)
+        .set_uncles(vec![])
+        .set_proposals(vec![])
+        .build()
+        .as_uncle()
+}
+
 fn edit_dao(v: &BlockView) -> BlockView {
     let mut raw = v.header().dao().raw_data().to_vec();
     raw[31] ^= 1;
     v.as_advanced_builder().dao(Byte32::from_slice(&raw).unwrap()).build()
+}
+
+/// A → B → A: the main chain A is replaced by a heavier valid branch B forking `d` blocks below the
+/// tip (B's blocks take over the chain-root MMR positions and the index of A's upper blocks), then
+/// two valid blocks on the old tip make A the heaviest again: the re-attachment of A's already
+/// verified blocks plus the two new ones must succeed (every block valid and heaviest ⇒ attached).
+fn switch_back(c: &mut Case) {
+    let main = c.builder.path_to(&c.tip);
+    let tip_n = main.len() as u64 - 1;
+    let d = c.rng.range(1, 3.min(tip_n - 1));
+    let a_tip = c.tip.clone();
+    let fork = main[(tip_n - d) as usize].clone();
+    // branch B: d + 1 empty valid blocks
+    let mut prev = fork;
+    for i in 0..=d {
+        let s = c.next_salt();
+        c.max_ts += 1;
+        let b = c.builder.build(&prev, &BlockSpec { salt: s, timestamp: Some(c.max_ts), ..Default::default() });
+        c.inplace.insert(b.hash());
+        let now = c.max_ts;
+        if i < d {
+            c.submit(&b, now, Intent::Side, "switch:B");
+        } else {
+            c.submit(&b, now, Intent::Valid, "switch:B-heaviest");
+        }
+        prev = b.hash();
+    }
+    c.out.count(&format!("switch-back:depth={}", d));
+    // back to A: two empty valid blocks on the old tip
+    let mut prev = a_tip;
+    for i in 0..2 {
+        let s = c.next_salt();
+        c.max_ts += 1;
+        let a = c.builder.build(&prev, &BlockSpec { salt: s, timestamp: Some(c.max_ts), ..Default::default() });
+        let now = c.max_ts;
+        c.describe_all(&prev, &[&a]);
+        if i == 0 {
+            c.submit(&a, now, Intent::Side, "switch:A-equal");
+        } else {
+            c.submit(&a, now, Intent::Valid, "switch:A-heaviest-again");
+        }
+        c.refstore.attach(&c.consensus, &a);
+        prev = a.hash();
+    }
+    c.tip = prev;
+    c.rules_hit.insert("switch-back:Valid".into());
 }
 
 /// a lighter side branch whose first block breaks a contextual rule: stored unverified; the branch
